@@ -326,6 +326,19 @@ impl Drop for SessionPool {
     }
 }
 
+// H6: read-only view of the idle map for oracles
+#[cfg(anytls_verif)]
+impl SessionPool {
+    /// (seq, session id, closed, idle for) of every pooled session, oldest first
+    pub async fn verif_idle(&self) -> Vec<(u64, u64, bool, Duration)> {
+        let sessions = self.idle_sessions.read().await;
+        sessions
+            .values()
+            .map(|p| (p.seq, p.session.id(), p.session.is_closed(), p.idle_since.elapsed()))
+            .collect()
+    }
+}
+
 #[cfg(test)]
 mod tests {
     use super::*;
